@@ -92,13 +92,25 @@ def _stream_calls(p, f, nm: Norm, cfg):
     return out
 
 
+class _Bound(dict):
+    """Bound arguments; a parameter name of the reader API that no longer
+    exists is a vanished anchor, not a crash."""
+
+    def __init__(self, reader, meth):
+        super().__init__()
+        self._what = '%s.%s' % (reader, meth)
+
+    def __missing__(self, key):
+        raise AnchorError('%s has no parameter `%s`' % (self._what, key))
+
+
 def _bind(p, reader: str, call: ast.Call) -> Dict[str, ast.AST]:
     """parameter name -> argument expression, by the reader's signature."""
     meth = p.lookup_method(reader, call.func.attr)
     if meth is None:
         raise AnchorError('%s has no method %s' % (reader, call.func.attr))
     pos = [a.arg for a in meth.node.args.posonlyargs + meth.node.args.args][1:]
-    out = {}
+    out = _Bound(reader, call.func.attr)
     for i, a in enumerate(call.args):
         if isinstance(a, ast.Starred) or i >= len(pos):
             raise UnknownIdiom('cannot bind arguments of %s' % short(call))
@@ -484,6 +496,21 @@ def _boundary_bounds(run):
     return bounds
 
 
+def _derives_from_param_len(expr, defs, params, _seen=None) -> bool:
+    """Does `expr` (through locals bound by plain assignments) contain
+    len(<parameter>)?"""
+    _seen = _seen or set()
+    for x in ast.walk(expr):
+        if isinstance(x, ast.Call) and isinstance(x.func, ast.Name) and x.func.id == 'len' and len(x.args) == 1 \
+                and isinstance(x.args[0], ast.Name) and x.args[0].id in params and x.args[0].id not in ('self', 'cls'):
+            return True
+        if isinstance(x, ast.Name) and x.id not in _seen and x.id in defs.defs:
+            for d in defs.defs[x.id]:
+                if d[0] == 'assign' and _derives_from_param_len(d[1], defs, params, _seen | {x.id}):
+                    return True
+    return False
+
+
 def _delimiter_length_exemptions(run, bounds) -> Dict[int, str]:
     """1.3(7): the readers' explicit ValueError for a delimiter longer than the
     chunk size is exempt *because* the boundary is validated to <= hi
@@ -494,6 +521,7 @@ def _delimiter_length_exemptions(run, bounds) -> Dict[int, str]:
         return out
     lo, hi = bounds
     sizes = {}
+    n_candidates = 0
     for rq in (SYNC_READER, ASGI_READER):
         c = p.cls(rq)
         v = p.fold(c.module, ast.Name(id='DEFAULT_CHUNK_SIZE', ctx=ast.Load()))
@@ -502,26 +530,38 @@ def _delimiter_length_exemptions(run, bounds) -> Dict[int, str]:
         sizes[rq] = v
         init = p.lookup_method(rq, '__init__')
         uses_default = init is not None and any(isinstance(x, ast.Name) and x.id == 'DEFAULT_CHUNK_SIZE' for x in ast.walk(init.node))
-        # raise ValueError guarded by a test that mentions self._chunk_size
+        # raise ValueError guarded by a test that relates the length of a
+        # parameter (the delimiter) to self._chunk_size; locals are followed
+        # through their definitions, never identified by name
         for m in c.methods.values():
             parent = {}
             for n in ast.walk(m.node):
                 for ch in ast.iter_child_nodes(n):
                     parent[id(ch)] = n
+            mdefs = None
             for n in walk_no_nested(m.node):
                 if not isinstance(n, ast.Raise) or n.exc is None:
                     continue
                 if raised_class(p, m, n) != 'builtins.ValueError':
                     continue
                 g = parent.get(id(n))
-                if isinstance(g, ast.If) and n in g.body and any(
-                        isinstance(x, ast.Attribute) and x.attr == '_chunk_size' for x in ast.walk(g.test)) and any(
-                        isinstance(x, ast.Name) and 'delimiter' in x.id for x in ast.walk(g.test)):
-                    worst = 4 + 4 * hi   # CRLF + '--' + boundary, 4 bytes per character at most
-                    if lo >= 1 and worst <= v and uses_default:
-                        out[id(n)] = ('delimiter length check: boundary validated to %d..%d characters, '
-                                      'at most %d bytes with CRLF and dashes <= DEFAULT_CHUNK_SIZE %d' % (lo, hi, worst, v))
-    run.check(len(out) >= 2, 'delimiter-length ValueError of both readers is unreachable for a validated boundary '
+                if not (isinstance(g, ast.If) and n in g.body and any(
+                        isinstance(x, ast.Attribute) and x.attr == '_chunk_size' for x in ast.walk(g.test))):
+                    continue
+                if mdefs is None:
+                    from .c13_helpers import Defs
+                    mdefs = Defs(m)
+                if not _derives_from_param_len(g.test, mdefs, m.params()):
+                    raise UnknownIdiom('%s: `raise ValueError` under `%s` is not recognisably a delimiter-length check' % (
+                        m.qual, short(g.test)))
+                n_candidates += 1
+                worst = 4 + 4 * hi   # CRLF + '--' + boundary, 4 bytes per character at most
+                if lo >= 1 and worst <= v and uses_default:
+                    out[id(n)] = ('delimiter length check: boundary validated to %d..%d characters, '
+                                  'at most %d bytes with CRLF and dashes <= DEFAULT_CHUNK_SIZE %d' % (lo, hi, worst, v))
+    if n_candidates == 0:
+        return out
+    run.check(len(out) == n_candidates, 'delimiter-length ValueError of both readers is unreachable for a validated boundary '
               '(4 + 4*%d bytes <= chunk sizes %s)' % (hi, sorted(sizes.values())), HANDLER_FORM, 'delimiter length exemption',
               where=p.func(HANDLER_FORM).loc())
     return out
